@@ -6,10 +6,13 @@ CONSTANTS
   Prefixes = {"", "cls"}
   RuleSets <- RuleSetsSome
   DefaultKinds = {"det", "dyn"}
+  DetRuleSets <- RuleSetsSome
   Encs = {"msgpack"}
+  Auths = {"ok"}
   WithReload = FALSE
+  Faithful = FALSE
   UpperHexIsClassic = FALSE
-INVARIANTS TypeOK EnvKeyUsesEnvironment ClassicKeyUsesDataset DocumentedShapes NeverWithoutSampler PrefixSeparates ExtractedIsWhatDeciderReads DecisionOfOneTarget
+INVARIANTS TypeOK EnvKeyUsesEnvironment ClassicKeyUsesDataset DocumentedShapes NeverWithoutSampler PrefixSeparates ExtractedIsWhatDeciderReads DecisionOfOneTarget NoUnknownEnvironmentIngested
 PROPERTY DecisionFollowsRules
 ACTION_CONSTRAINT Dump
 VIEW View
